@@ -54,6 +54,13 @@ def props_of(name, path):
     return parse_header(path)
 
 
+def expected_miss(name, path):
+    if name.startswith('seeded/'):
+        with open(os.path.join(os.path.dirname(path), 'meta.json')) as f:
+            return json.load(f).get('expect') == 'miss'
+    return False
+
+
 def run_one(name, path, budget=None):
     props, tier = props_of(name, path)
     scratch = '/dev/shm/txdbus-mut-%d-%s' % (os.getpid(), name.replace('/', '_'))
@@ -81,6 +88,8 @@ def run_one(name, path, budget=None):
             dt = time.time() - t0
             lines = [l for l in r.stdout.splitlines() if l.startswith(('violation:', 'HARNESS'))]
             status = {0: 'MISSED', 1: 'DETECTED'}.get(r.returncode, 'HARNESS-ERROR(%d)' % r.returncode)
+            if status == 'MISSED' and expected_miss(name, path):
+                status = 'EXPECTED-MISS'
             results.append((name, prop, status, dt, '; '.join(l[:160] for l in lines[:2])))
     finally:
         shutil.rmtree(scratch, ignore_errors=True)
@@ -102,7 +111,7 @@ def main(argv):
                 sys.stdout.flush()
     finally:
         pass
-    missed = [r for r in rows if r[2] != 'DETECTED']
+    missed = [r for r in rows if r[2] not in ('DETECTED', 'EXPECTED-MISS')]
     print('%d mutant/check pairs, %d detected, %d not' % (len(rows), len(rows) - len(missed), len(missed)))
     rpath = os.path.join(VERIF, 'mutants', 'RESULTS.json')
     merged = {}
